@@ -48,6 +48,7 @@ static inline size_t bl_idx(size_t i, size_t n) { bl_bounds(i < n); return i; }
 #define BL_IDX(i, n) bl_idx((size_t)(i), (size_t)(n))
 #define VEC_SIZE(v) ((v).size)
 #define VEC_AT(v, i) ((v).data[BL_IDX(i, (v).size)])
+#define BL_NULL 0
 #define BL_MIN(a, b) ((a) < (b) ? (a) : (b))
 #define BL_MAX(a, b) ((a) < (b) ? (b) : (a))
 
